@@ -140,6 +140,9 @@ def describe_subject(blobs, subj, pubcache):
         tb_ = subj[1].encode('utf-8')
         canon_ = b'\r\n'.join(l.rstrip(b' \t') for l in tb_.replace(b'\r\n', b'\n').split(b'\n'))     # proposal for the independent verifier (TLC: CanonCleartext)
         return dict(sigs.subj_doc(blobs, tb_), cleartext=True), subj[1], {'doc': canon_}
+    if kind == 'inline':
+        # subject = the content octets of the literal packet of the exported message (harness reader; the spec hashes them as they are)
+        return sigs.subj_doc(blobs, subj[2]), subj[2], {'doc': subj[2]}
     if kind == 'none':
         return {}, None, {}
 
@@ -178,7 +181,14 @@ def indep_event(blobs, sig, subj, env, pubcache, label):
         pubcache['self'] = pgpy.PGPKey.from_blob(blob)[0]
     pub = pubcache['self']
     s2 = sigs.parse_sig(pkt)
-    if subj[0] == 'text' and s2 is not None:
+    if subj[0] == 'inline' and s2 is not None:
+        with warnings.catch_warnings():
+            warnings.simplefilter('ignore')
+            try:
+                reimport_ok = bytes(s2) == pkt and bool(pub.verify(pgpy.PGPMessage.from_blob(subj[1])))
+            except Exception:
+                reimport_ok = False
+    elif subj[0] == 'text' and s2 is not None:
         # the signature of a cleartext signed message is verified as part of that message (the 7.1 form of the text is what it covers)
         with warnings.catch_warnings():
             warnings.simplefilter('ignore')
@@ -256,6 +266,31 @@ def pgpy_side(ctx, blobs, combos):
             ev.append(e)
         except Exception as ex:
             ctx.note('third-party long uid: %s' % repr(ex)[:80])
+        # signatures made over a message object (inline-signed literal data of every format, with and without compression): the subject is
+        # the content of the literal packet as exported
+        from pgpy.constants import CompressionAlgorithm as _CA
+        for fmt in ('b', 't', 'u'):
+            for cname, content in (('ascii', 'plain ascii text\nsecond line\r\nthird'), ('non-ascii', 'Andr\xe9 \u2014 \xfcn\xef c\u0153ur\n'), ('octets', b'\x00\xff\xe9 octets\r\n')):
+                if fmt != 'b' and isinstance(content, bytes):
+                    continue
+                for comp in (_CA.Uncompressed, _CA.ZLIB):
+                    try:
+                        with warnings.catch_warnings():
+                            warnings.simplefilter('ignore')
+                            import pgpy as _pgpy
+                            m_ = _pgpy.PGPMessage.new(content, format=fmt, compression=comp)
+                            sig = env.k.sign(m_, created=env.now())
+                            m_ |= sig
+                            mblob = bytes(m_)
+                            plain = _pgpy.PGPMessage.new(content, format=fmt, compression=_CA.Uncompressed)
+                            lit = next(b for t_, b, r_ in build.read_packets(bytes(plain)) if t_ == 11)
+                            raw = bytes(lit[2 + lit[1] + 4:])
+                    except Exception as ex:
+                        ctx.note('inline %s/%s: %s' % (fmt, cname, repr(ex)[:80]))
+                        continue
+                    e = indep_event(blobs, sig, ('inline', mblob, raw), env, pubcache, '%s inline format=%s content=%s comp=%s' % (alg, fmt, cname, comp.name))
+                    e['alg'], e['kind'], e['opts'] = alg, 'inline', ['format=%s' % fmt, 'content=%s' % cname]
+                    ev.append(e)
         # every hash on document, text and certification
         for h in ('MD5', 'SHA1', 'RIPEMD160', 'SHA224', 'SHA256', 'SHA384', 'SHA512'):
             for kind in ('doc', 'text', 'thirdparty'):
